@@ -13,8 +13,9 @@ import (
 type AddrV struct{ Addr string }
 
 type envEntry struct {
-	v Val
-	t types.Type
+	v   Val
+	t   types.Type
+	loc *Loc // variable living in a memory cell (captured / address-taken): its value is state-dependent
 }
 
 type SpecCtx struct {
@@ -56,7 +57,7 @@ func (c *SpecCtx) with(name string, v Val, t types.Type) *SpecCtx {
 	for k, e := range c.env {
 		n.env[k] = e
 	}
-	n.env[name] = envEntry{v, t}
+	n.env[name] = envEntry{v: v, t: t}
 	return &n
 }
 
@@ -180,6 +181,9 @@ func (c *SpecCtx) eval(e Expr) (Val, types.Type) {
 func (c *SpecCtx) ident(name string) (Val, types.Type) {
 	x := c.x
 	if e, ok := c.env[name]; ok {
+		if e.loc != nil {
+			return x.load(c.cur, e.loc, e.t), e.t
+		}
 		return e.v, e.t
 	}
 	if g, ok := x.eng.ghostVars[name]; ok {
@@ -319,7 +323,7 @@ func (c *SpecCtx) quant(n *EQuant) (Val, types.Type) {
 			for k, e := range cc.witEnv {
 				we[k] = e
 			}
-			we[qv.Name] = envEntry{Sc{T: nm, S: sort}, t.gt}
+			we[qv.Name] = envEntry{v: Sc{T: nm, S: sort}, t: t.gt}
 			cc.witEnv = we
 		}
 		_ = guards
@@ -787,6 +791,19 @@ func (c *SpecCtx) call(n *ECall) (Val, types.Type) {
 		}
 		h := x.heap(c.cur, callCounter(key), "(Array Int Int)")
 		return I(sx("select", h, idx)), tInt
+	case "invoked", "cbresult": // higher-order protocol (contracts with 'invokes p')
+		id, ok := n.Args[0].(*EIdent)
+		if !ok {
+			c.fail("%s(param)", n.Fun)
+		}
+		if e, ok := c.env[n.Fun+"$"+id.Name]; ok {
+			return e.v, e.t
+		}
+		// inside the verified function itself: ghost flags set at the dynamic call
+		if n.Fun == "invoked" {
+			return B(x.heap(c.cur, "G$invoked$"+id.Name, "Bool")), tBool
+		}
+		return IfaceV{x.heap(c.cur, "G$cbresult$"+id.Name+".tag", "Int"), x.heap(c.cur, "G$cbresult$"+id.Name+".ref", "Int")}, types.Universe.Lookup("error").Type()
 	case "sameheap": // sameheap("T.f"): the whole field heap is unchanged since the old state
 		str, ok := n.Args[0].(*EStr)
 		if !ok || c.old == nil {
@@ -883,7 +900,7 @@ func (c *SpecCtx) call(n *ECall) (Val, types.Type) {
 		if pt.sort == "" {
 			at = pt.gt
 		}
-		nc.env[p.Name] = envEntry{av, at}
+		nc.env[p.Name] = envEntry{v: av, t: at}
 	}
 	return nc.eval(pf.Body)
 }
